@@ -69,6 +69,27 @@ CHECKS = {
 
 NOT_YET = {}
 
+# families added after the later seeded rounds (appended to the level text)
+ADDED = {
+ "C01": "Also variables named like literals/keywords/operators/markers (True, FALSE, fi, DNE, ...).",
+ "C02": "The config also registers a wrong operator under every builtin name and alias.",
+ "C03": "Plus nested evaluations: while a registered operator runs, the same compiled program (operand widths 3..40) is evaluated under another binding; the outer trace must still match.",
+ "C04": "Also with variables resolved by name, with registered variables in a config that allows undefined ones (there also through the context NewCtxFromVars builds from the available values), and for the one-node programs only infix notation can write.",
+ "C05": "Also with variables resolved by name, registered variables next to AllowUndefinedVariable (incl. NewCtxFromVars contexts) and one-node infix programs.",
+ "C06": "Bound values include pre-built sets; identifiers and string literals spelled like the engine's markers in 11 operand-position templates.",
+ "C07": "Plus 8 sequential-only programs whose list bindings reuse one caller-side buffer with changing contents (lengths 3/64/100/130).",
+ "C08": "Also the nil config as a fourth caller config, two names aliased to one key, results compared through a by-name and a by-key fetcher, independence of CopyConfig(nil) results.",
+ "C09": "Plus stack-depth family: nested 126-operand sums with 2^k-1, 2^k, 2^k+1 pending operands (k = 3..14) and up to 32500.",
+ "C10": "Plus declaration histories: base stateless list (0..3 names, spare capacity 0..2) x two derived configs (same object / CopyConfig / ExtendConf) x one append each in either order.",
+ "C11": "RegVarAndOp also in one or two batches on top of every injective pre-keying of <=2 names with keys from {-1, 0..10, 255, 256}.",
+ "C12": "Plus the slowest consumer on channels of capacity 0..3 (takes an event only when the evaluator is observed blocked in its send) and NewCtxFromVars contexts with each variable left unbound.",
+ "C13": "A program collapsing to a bare variable must still dump to compilable text.",
+ "C16": "Also every tree with two same-typed variables merged, and one other name priced at 5e6.",
+ "C17": "Plus 8 string universes colliding under common 32-bit hashes and every depth-3 history of 3 contents written in place into one list-variable buffer (lengths 3..256).",
+ "C18": "Plus chains of 2..4 unary negations over every operand value.",
+ "C20": "Plus variables named like builtin operators and one GenVariables option object reused over every history of 3 value phases of its map.",
+}
+
 def main():
     props = [json.loads(l) for l in open(os.path.join(ROOT, "properties.jsonl"))]
     checks = []
@@ -77,6 +98,8 @@ def main():
         pid = p["id"]
         if pid in CHECKS:
             tech, text, note, ref = CHECKS[pid]
+            if pid in ADDED:
+                text = text.rstrip() + " " + ADDED[pid]
             checks.append({
                 "property_id": pid,
                 "quick_cmd": "./run.sh %s quick" % pid,
@@ -109,8 +132,7 @@ def main():
         "not_applicable": na,
         "notes": "Every check rebuilds mc/cmd/check against /repo's working tree (run.sh). Genuine defects found are repaired by `fix:` commits in /repo or listed in known_findings.json; see DESIGN.md §8.",
     }
-    if not na:
-        del m["not_applicable"]
+    # every property is claimed: the list stays, empty
     json.dump(m, open(os.path.join(ROOT, "MANIFEST.json"), "w"), indent=1)
     print("checks:", [c["property_id"] for c in checks], "not claimed:", [n["property_id"] for n in na])
 
